@@ -21,7 +21,7 @@ func newReconfState() *reconfState {
 }
 
 func (o *Oracles) onReconfEvent(w *World, e *Event) {
-	if w.cfg.Scenario != "reconfigure" {
+	if w.cfg.Scenario != "reconfigure" && w.cfg.Scenario != "apply" {
 		return
 	}
 	r := o.rc
@@ -94,7 +94,7 @@ func (o *Oracles) checkGenerations(w *World) {
 		ps := w.procs[id]
 		for gen, n := range ps.opened {
 			want := n
-			if ps.torndown[gen] != want {
+			if ps.torndown[gen] < want || ps.torndown[gen] > want+ps.failedOpens[gen] {
 				w.violate("C13", "teardown-mismatch", fmt.Sprintf("processor %s generation %d was opened %d time(s) and torn down %d time(s)", id, gen, n, ps.torndown[gen]))
 			}
 		}
